@@ -335,3 +335,349 @@ Example xe_example :
   /\ replace_spec [2; 4] [FT [110%N]; FE [107%N] [] []] d
      = Some {| did := 0; dchildren := [E 1 [114%N] [] [E 2 [97%N] [(3, [112%N], [49%N])] [T [110%N]; E 0 [107%N] [] []]; E 5 [99%N] [] []]] |}.
 Proof. split; vm_compute; reflexivity. Qed.
+
+(** * The general case: elements, attributes and the document node among the selected nodes *)
+
+Definition upd_attrs (SA : list nat) (v : str) (attrs : list (nat * str * str)) : list (nat * str * str) :=
+  map (fun a => let '(i, n, w) := a in if memb i SA then (i, n, v) else a) attrs.
+
+Fixpoint rsA (SE SA : list nat) (v : str) (new : list xn) (n : xn) : xn :=
+  match n with
+  | E j name attrs ch =>
+      if memb j SE then E j name (upd_attrs SA v attrs) new
+      else E j name (upd_attrs SA v attrs) (map (rsA SE SA v new) ch)
+  | other => other
+  end.
+
+(** fresh nodes: element AND attribute identifiers are 0 *)
+Fixpoint fresh2 (n : xn) : Prop :=
+  match n with
+  | E i _ attrs ch => i = 0 /\ Forall (fun a => fst (fst a) = 0) attrs /\
+      (fix all (l : list xn) : Prop := match l with [] => True | c :: r => fresh2 c /\ all r end) ch
+  | _ => True
+  end.
+
+Lemma fresh2_E i name attrs ch :
+  fresh2 (E i name attrs ch) <-> i = 0 /\ Forall (fun a => fst (fst a) = 0) attrs /\ Forall fresh2 ch.
+Proof.
+  cbn [fresh2]. split; intros (Hi & Ha & H); repeat split; auto.
+  - induction ch as [|c r IH]; [constructor|]. destruct H as [Hc Hr]. constructor; auto.
+  - induction H as [|c r Hc Hr IH]; [exact I|]. split; auto.
+Qed.
+
+Lemma fresh2_fresh : forall n, fresh2 n -> fresh n.
+Proof.
+  induction n as [j name attrs ch IH|s|s|t d|m|s|s] using xn_ind'; intros H; try exact I.
+  apply fresh2_E in H. destruct H as (Hj & _ & Hch). apply fresh_E. split; [exact Hj|].
+  unfold all_fresh. induction ch as [|c r IHr]; [constructor|].
+  inversion IH; subst. inversion Hch; subst. constructor; auto.
+Qed.
+
+Lemma set_attr_zero j v attrs : j <> 0 -> Forall (fun a => fst (fst a) = 0) attrs -> set_attr j v attrs = attrs.
+Proof.
+  intros Hj H. unfold set_attr. induction H as [|[[i n] w] r Hi Hr IH]; [reflexivity|]. cbn [map fst] in *. subst i.
+  destruct (Nat.eqb_spec j 0); [contradiction|]. now rewrite IH.
+Qed.
+
+Lemma edit_attr_fresh j v : j <> 0 -> forall n, fresh2 n -> edit_attr j v n = n.
+Proof.
+  intros Hj. induction n as [i name attrs ch IH|s|s|t d|m|s|s] using xn_ind'; intros Hf; cbn [edit_attr]; try reflexivity.
+  apply fresh2_E in Hf. destruct Hf as (_ & Ha & Hch). rewrite (set_attr_zero j v attrs Hj Ha). f_equal.
+  induction ch as [|c r IHr]; [reflexivity|]. cbn [map]. inversion IH; subst. inversion Hch; subst.
+  f_equal; auto.
+Qed.
+
+Lemma map_edit_attr_fresh j v l : j <> 0 -> Forall fresh2 l -> map (edit_attr j v) l = l.
+Proof.
+  intros Hj H. induction H as [|c r Fc Fr IHr]; [reflexivity|]. cbn [map].
+  rewrite (edit_attr_fresh j v Hj c Fc). now rewrite IHr.
+Qed.
+
+Lemma merge_text_fresh2 l : Forall fresh2 l -> Forall fresh2 (merge_text l).
+Proof.
+  induction l as [|x l IH]; intros H; cbn [merge_text]; [constructor|].
+  inversion H as [|? ? Hx Hl]; subst. specialize (IH Hl).
+  destruct x; try (constructor; assumption).
+  destruct (merge_text l) as [|y r] eqn:Em.
+  - destruct s; [constructor|constructor; [exact I|constructor]].
+  - destruct y; try (destruct s; [exact IH|constructor; [exact I|exact IH]]).
+    inversion IH; subst. constructor; [exact I|assumption].
+Qed.
+
+Lemma conv_fresh2 : forall f, fresh2 (conv f).
+Proof.
+  induction f as [name attrs ch IH|s|s|s|t d|nm|] using fnode_ind'; cbn [conv]; try exact I.
+  - apply fresh2_E. split; [reflexivity|]. split.
+    + clear. induction attrs as [|a r IHr]; cbn [map]; constructor; [reflexivity|exact IHr].
+    + apply merge_text_fresh2. induction IH as [|c r Hc Hr IHr]; cbn [map]; constructor; assumption.
+  - destruct (predefined nm); exact I.
+Qed.
+
+Lemma upd_attrs_nil v attrs : upd_attrs [] v attrs = attrs.
+Proof. unfold upd_attrs. induction attrs as [|[[i n] w] r IH]; [reflexivity|]. cbn [map]. rewrite IH. reflexivity. Qed.
+
+Lemma set_attr_upd j SA v attrs : set_attr j v (upd_attrs SA v attrs) = upd_attrs (j :: SA) v attrs.
+Proof.
+  unfold set_attr, upd_attrs. rewrite map_map. apply map_ext. intros [[i n] w].
+  rewrite memb_cons. rewrite (Nat.eqb_sym i j). destruct (memb i SA); cbn [orb]; destruct (Nat.eqb j i); reflexivity.
+Qed.
+
+Lemma rsA_nil v new : forall n, rsA [] [] v new n = n.
+Proof.
+  induction n as [j name attrs ch IH|s|s|t d|m|s|s] using xn_ind'; cbn [rsA memb existsb]; try reflexivity.
+  rewrite upd_attrs_nil. f_equal. induction IH as [|c r Hc Hr IHr]; [reflexivity|]. cbn [map]. now rewrite Hc, IHr.
+Qed.
+
+Lemma upd_attrs_ext SA SA' v attrs : (forall i, memb i SA = memb i SA') -> upd_attrs SA v attrs = upd_attrs SA' v attrs.
+Proof. intros H. unfold upd_attrs. apply map_ext. intros [[i n] w]. now rewrite H. Qed.
+
+Lemma rsA_ext SE SE' SA SA' v new :
+  (forall i, memb i SE = memb i SE') -> (forall i, memb i SA = memb i SA') ->
+  forall n, rsA SE SA v new n = rsA SE' SA' v new n.
+Proof.
+  intros HE HA. induction n as [j name attrs ch IH|s|s|t d|m|s|s] using xn_ind'; cbn [rsA]; try reflexivity.
+  rewrite (HE j), (upd_attrs_ext SA SA' v attrs HA). destruct (memb j SE'); [reflexivity|]. f_equal.
+  induction IH as [|c r Hc Hr IHr]; [reflexivity|]. cbn [map]. now rewrite Hc, IHr.
+Qed.
+
+Lemma edit_elem_rsA i SE SA v new : i <> 0 -> Forall fresh2 new ->
+  forall n, edit_elem i new (rsA SE SA v new n) = rsA (i :: SE) SA v new n.
+Proof.
+  intros Hi Hnew. induction n as [j name attrs ch IH|s|s|t d|m|s|s] using xn_ind'; cbn [rsA]; try reflexivity.
+  rewrite memb_cons. destruct (memb j SE) eqn:Ej.
+  - rewrite orb_true_r. cbn [edit_elem]. destruct (Nat.eqb_spec i j); [reflexivity|]. f_equal.
+    apply map_edit_fresh; [exact Hi|]. unfold all_fresh. eapply Forall_impl; [|exact Hnew]. apply fresh2_fresh.
+  - rewrite orb_false_r. cbn [edit_elem]. rewrite (Nat.eqb_sym j i). destruct (Nat.eqb_spec i j); [reflexivity|]. f_equal.
+    rewrite map_map. induction IH as [|c r Hc Hr IHr]; [reflexivity|]. cbn [map]. now rewrite Hc, IHr.
+Qed.
+
+Lemma edit_attr_rsA j SE SA v new : j <> 0 -> Forall fresh2 new ->
+  forall n, edit_attr j v (rsA SE SA v new n) = rsA SE (j :: SA) v new n.
+Proof.
+  intros Hj Hnew. induction n as [i name attrs ch IH|s|s|t d|m|s|s] using xn_ind'; cbn [rsA]; try reflexivity.
+  destruct (memb i SE) eqn:Ei; cbn [edit_attr]; rewrite set_attr_upd; f_equal.
+  - apply map_edit_attr_fresh; assumption.
+  - rewrite map_map. induction IH as [|c r Hc Hr IHr]; [reflexivity|]. cbn [map]. now rewrite Hc, IHr.
+Qed.
+
+Definition elems_of (sel : list (nat * kind)) : list nat :=
+  map fst (filter (fun p => match snd p with KElem => true | _ => false end) sel).
+Definition attrs_of (sel : list (nat * kind)) : list nat :=
+  map fst (filter (fun p => match snd p with KAttr => true | _ => false end) sel).
+Definition no_doc_other (sel : list (nat * kind)) : Prop :=
+  Forall (fun p => match snd p with KElem | KAttr => True | _ => False end) sel.
+
+Lemma rsA_is_elem SE SA v new n : is_elem (rsA SE SA v new n) = is_elem n.
+Proof. destruct n; cbn [rsA is_elem]; try reflexivity. destruct (memb id SE); reflexivity. Qed.
+
+Lemma existsb_is_elem_rsA SE SA v new l : existsb is_elem (map (rsA SE SA v new) l) = existsb is_elem l.
+Proof. induction l as [|c r IH]; [reflexivity|]. cbn [map existsb]. now rewrite rsA_is_elem, IH. Qed.
+
+(** the loop on a selection of elements and attributes *)
+Lemma xe_loop_mixed frag newm v :
+  forall sel did0 ch0 SE SA, no_doc_other sel -> ~ In 0 (map fst sel) -> Forall fresh2 newm ->
+  (elems_of sel = [] \/ exists new, conv_list frag = Some (Some new) /\ merge_text new = newm) ->
+  (attrs_of sel = [] \/ attr_text frag = Some v) ->
+  existsb is_elem ch0 = true ->
+  xe_loop {| did := did0; dchildren := map (rsA SE SA v newm) ch0 |} sel frag
+  = Done {| did := did0; dchildren := map (rsA (rev (elems_of sel) ++ SE) (rev (attrs_of sel) ++ SA) v newm) ch0 |}.
+Proof.
+  induction sel as [|[i k] sel IH]; intros did0 ch0 SE SA Hk H0 Hf HE HA Hroot.
+  - cbn [xe_loop elems_of attrs_of filter map rev app]. unfold finish. cbn [dchildren].
+    now rewrite existsb_is_elem_rsA, Hroot.
+  - inversion Hk as [|? ? Hk1 Hk2]; subst. cbn [snd] in Hk1.
+    assert (Hi : i <> 0) by (intros ->; apply H0; left; reflexivity).
+    assert (H0' : ~ In 0 (map fst sel)) by (intros Hin; apply H0; right; exact Hin).
+    destruct k; try contradiction; cbn [xe_loop].
+    + (* element *)
+      destruct HE as [HE|[new [Hc Hnew]]]; [unfold elems_of in HE; cbn [filter snd map] in HE; discriminate|].
+      rewrite Hc. cbn [did dchildren]. rewrite Hnew.
+      rewrite map_map. rewrite (map_ext _ _ (edit_elem_rsA i SE SA v newm Hi Hf)).
+      rewrite (IH did0 ch0 (i :: SE) SA Hk2 H0' Hf); [| right; eauto | exact HA | exact Hroot].
+      unfold elems_of, attrs_of. cbn [filter snd map rev fst]. now rewrite <- app_assoc.
+    + (* attribute *)
+      destruct HA as [HA|Hvv]; [unfold attrs_of in HA; cbn [filter snd map] in HA; discriminate|].
+      rewrite Hvv. cbn [did dchildren].
+      rewrite map_map. rewrite (map_ext _ _ (edit_attr_rsA i SE SA v newm Hi Hf)).
+      rewrite (IH did0 ch0 SE (i :: SA) Hk2 H0' Hf); [| exact HE | right; exact Hvv | exact Hroot].
+      unfold elems_of, attrs_of. cbn [filter snd map rev fst]. now rewrite <- app_assoc.
+Qed.
+
+(** the specification, for identifiers whose kind is what the selection says *)
+Fixpoint kinds_ok (SE SA : list nat) (n : xn) : Prop :=
+  match n with
+  | E j _ attrs ch =>
+      memb j SA = false /\ Forall (fun a => memb (fst (fst a)) SE = false) attrs /\
+      (fix all (l : list xn) : Prop := match l with [] => True | c :: r => kinds_ok SE SA c /\ all r end) ch
+  | _ => True
+  end.
+
+Lemma kinds_ok_E SE SA j name attrs ch :
+  kinds_ok SE SA (E j name attrs ch) <->
+  memb j SA = false /\ Forall (fun a => memb (fst (fst a)) SE = false) attrs /\ Forall (kinds_ok SE SA) ch.
+Proof.
+  cbn [kinds_ok]. split; intros (Hj & Ha & H); repeat split; auto.
+  - induction ch as [|c r IH]; [constructor|]. destruct H as [Hc Hr]. constructor; auto.
+  - induction H as [|c r Hc Hr IH]; [exact I|]. split; auto.
+Qed.
+
+Lemma attr_text_frag_text : forall frag v, attr_text frag = Some v -> frag_text frag = Some v.
+Proof.
+  induction frag as [|f r IH]; intros v H; cbn [attr_text frag_text] in *; [exact H|].
+  destruct f; try discriminate.
+  - destruct (attr_text r) as [w|]; [|discriminate]. now rewrite (IH w eq_refl).
+  - destruct (predefined name); [|discriminate]. destruct (attr_text r) as [w|]; [|discriminate]. now rewrite (IH w eq_refl).
+Qed.
+
+Lemma rs_attrs_upd SE SA frag v attrs :
+  Forall (fun a => memb (fst (fst a)) SE = false) attrs ->
+  (forall a, In a attrs -> memb (fst (fst a)) SA = true -> frag_text frag = Some v) ->
+  rs_attrs (SE ++ SA) frag attrs = Some (upd_attrs SA v attrs).
+Proof.
+  unfold rs_attrs, upd_attrs. induction attrs as [|[[i n] w] r IH]; intros HE Hv; cbn [fold_right map]; [reflexivity|].
+  inversion HE as [|? ? Hi Hr]; subst. cbn [fst] in Hi.
+  rewrite IH; [|exact Hr|intros a Ha; apply Hv; right; exact Ha].
+  rewrite memb_app, Hi. cbn [orb]. destruct (memb i SA) eqn:Ei; [|reflexivity].
+  rewrite (Hv (i, n, w) (or_introl eq_refl) Ei). reflexivity.
+Qed.
+
+Lemma rs_rsA SE SA frag v : (SA <> [] -> frag_text frag = Some v) ->
+  forall n, kinds_ok SE SA n -> rs (SE ++ SA) frag n = Some (rsA SE SA v (conv_children frag) n).
+Proof.
+  intros Hv. induction n as [j name attrs ch IH|s|s|t d|m|s|s] using xn_ind'; intros Hk; cbn [rs rsA]; try reflexivity.
+  apply kinds_ok_E in Hk. destruct Hk as (Hj & Ha & Hch).
+  rewrite (rs_attrs_upd SE SA frag v attrs Ha).
+  2:{ intros a _ Hm. apply Hv. intros ->. discriminate. }
+  rewrite memb_app, Hj, orb_false_r. destruct (memb j SE); [reflexivity|]. fold (go_rs (SE ++ SA) frag).
+  assert (Hg : go_rs (SE ++ SA) frag ch = Some (map (rsA SE SA v (conv_children frag)) ch)).
+  { induction ch as [|c r IHr]; [reflexivity|]. cbn [go_rs map].
+    inversion IH as [|? ? Hc Hr]; subst. inversion Hch as [|? ? Kc Kr]; subst.
+    rewrite (Hc Kc). fold (go_rs (SE ++ SA) frag). now rewrite (IHr Hr Kr). }
+  now rewrite Hg.
+Qed.
+
+Lemma rs_ext S S' frag : (forall i, memb i S = memb i S') -> forall n, rs S frag n = rs S' frag n.
+Proof.
+  intros H. induction n as [j name attrs ch IH|s|s|t d|m|s|s] using xn_ind'; cbn [rs]; try reflexivity.
+  assert (Ha : rs_attrs S frag attrs = rs_attrs S' frag attrs).
+  { unfold rs_attrs. induction attrs as [|[[i n] w] r IHr]; cbn [fold_right]; [reflexivity|]. now rewrite IHr, (H i). }
+  rewrite Ha, (H j). destruct (rs_attrs S' frag attrs); [|reflexivity]. destruct (memb j S'); [reflexivity|].
+  fold (go_rs S frag). fold (go_rs S' frag).
+  assert (Hg : go_rs S frag ch = go_rs S' frag ch).
+  { induction IH as [|c r Hc Hr IHr]; [reflexivity|]. cbn [go_rs]. rewrite Hc. fold (go_rs S frag). fold (go_rs S' frag). now rewrite IHr. }
+  now rewrite Hg.
+Qed.
+
+Lemma memb_sel_split sel : no_doc_other sel ->
+  forall i, memb i (map fst sel) = memb i (rev (elems_of sel) ++ rev (attrs_of sel)).
+Proof.
+  intros Hk i. rewrite memb_app, !memb_rev. induction Hk as [|[j k] r Hk1 Hr IH]; [reflexivity|].
+  cbn [snd] in Hk1. unfold elems_of, attrs_of in *. cbn [map fst filter snd]. rewrite memb_cons, IH.
+  destruct k; try contradiction; cbn [map fst]; rewrite memb_cons; destruct (Nat.eqb i j); cbn [orb]; try reflexivity.
+  now rewrite orb_true_r.
+Qed.
+
+(** what the loop must have converted when it ends with [Done] *)
+Lemma xe_loop_done_conv frag : forall sel x d', no_doc_other sel -> xe_loop x sel frag = Done d' ->
+  (elems_of sel = [] \/ exists new, conv_list frag = Some (Some new)) /\
+  (attrs_of sel = [] \/ exists v, attr_text frag = Some v).
+Proof.
+  induction sel as [|[i k] r IH]; intros x d' Hk Hm.
+  - split; left; reflexivity.
+  - inversion Hk as [|? ? Hk1 Hk2]; subst. cbn [snd] in Hk1. destruct k; try contradiction; cbn [xe_loop] in Hm.
+    + destruct (conv_list frag) as [[new|]|] eqn:Ec; try discriminate.
+      destruct (IH _ _ Hk2 Hm) as [_ IH2]. split; [right; eauto|].
+      unfold attrs_of in *. cbn [filter snd]. exact IH2.
+    + destruct (attr_text frag) as [v|] eqn:Ev; try discriminate.
+      destruct (IH _ _ Hk2 Hm) as [IH1 _]. split; [|right; eauto].
+      unfold elems_of in *. cbn [filter snd]. exact IH1.
+Qed.
+
+Lemma rev_nil_iff {A} (l : list A) : rev l = [] <-> l = [].
+Proof. split; intros H; [|now subst]. destruct l as [|a l]; [reflexivity|]. cbn [rev] in H. destruct (rev l); discriminate. Qed.
+
+(** ** xe_effect for every selection of elements and attributes *)
+Theorem xe_effect_mixed : forall (d : xdoc) (sel : list (nat * kind)) (frag : list fnode) (d' : xdoc),
+  no_doc_other sel ->                                  (* elements and attributes are selected *)
+  ~ In 0 (map fst sel) -> did d = 0 ->
+  Forall (kinds_ok (rev (elems_of sel)) (rev (attrs_of sel))) (dchildren d) ->   (* identifiers have the kind the selection says *)
+  existsb is_elem (dchildren d) = true ->
+  xe_model d sel frag = Done d' ->
+  replace_spec (map fst sel) frag d = Some d'.
+Proof.
+  intros [did0 ch0] sel frag d' Hk H0 Hd Hkinds Hroot Hm. cbn [did dchildren] in *. subst did0.
+  unfold xe_model in Hm.
+  destruct (xe_loop_done_conv frag sel _ _ Hk Hm) as [HcE HcA].
+  set (newm := conv_children frag).
+  set (v := match attr_text frag with Some w => w | None => [] end).
+  assert (Hfresh : Forall fresh2 newm).
+  { unfold newm, conv_children. apply merge_text_fresh2. clear. induction frag; cbn [map]; constructor; [apply conv_fresh2|assumption]. }
+  assert (HE : elems_of sel = [] \/ exists new, conv_list frag = Some (Some new) /\ merge_text new = newm).
+  { destruct HcE as [HcE|[new Hc]]; [left; exact HcE|right]. exists new. split; [exact Hc|].
+    unfold newm, conv_children. now rewrite (conv_list_map _ _ Hc). }
+  assert (HA : attrs_of sel = [] \/ attr_text frag = Some v).
+  { destruct HcA as [HcA|[w Hw]]; [left; exact HcA|right]. unfold v. now rewrite Hw. }
+  replace ch0 with (map (rsA [] [] v newm) ch0) in Hm at 1
+    by (rewrite (map_ext _ _ (rsA_nil v newm)); apply map_id).
+  rewrite (xe_loop_mixed frag newm v sel 0 ch0 [] [] Hk H0 Hfresh HE HA Hroot) in Hm.
+  injection Hm as <-. rewrite !app_nil_r.
+  unfold replace_spec. cbn [did dchildren].
+  assert (Hm0 : memb 0 (map fst sel) = false).
+  { unfold memb. destruct (existsb (Nat.eqb 0) (map fst sel)) eqn:E; [|reflexivity]. apply existsb_exists in E.
+    destruct E as [x [Hx Hx0]]. apply Nat.eqb_eq in Hx0. subst x. contradiction. }
+  rewrite Hm0. fold (go_rs (map fst sel) frag).
+  assert (Hg : go_rs (map fst sel) frag ch0 = Some (map (rsA (rev (elems_of sel)) (rev (attrs_of sel)) v newm) ch0)).
+  { clear Hroot. induction ch0 as [|c r IHr]; [reflexivity|]. cbn [go_rs map]. inversion Hkinds as [|? ? Kc Kr]; subst.
+    rewrite (rs_ext _ _ frag (memb_sel_split sel Hk) c).
+    rewrite (rs_rsA (rev (elems_of sel)) (rev (attrs_of sel)) frag v); [| |exact Kc].
+    - fold (go_rs (map fst sel) frag). now rewrite (IHr Kr).
+    - intros Hne. destruct HA as [HA|HA]; [exfalso; apply Hne; apply rev_nil_iff; exact HA|].
+      apply attr_text_frag_text. exact HA. }
+  now rewrite Hg.
+Qed.
+
+(** ** the document node as the selected node (`--xpath /`) *)
+Lemma merge_text_no_text l :
+  forallb (fun n => match n with E _ _ _ _ | Cm _ | P _ _ => true | _ => false end) l = true -> merge_text l = l.
+Proof.
+  induction l as [|x l IH]; [reflexivity|]. cbn [forallb]. intros H. apply andb_true_iff in H. destruct H as [Hx Hl].
+  destruct x; try discriminate; cbn [merge_text]; now rewrite (IH Hl).
+Qed.
+
+Lemma filter_elem_length l : existsb is_elem l = true -> length (filter is_elem l) <= 1 -> length (filter is_elem l) = 1.
+Proof.
+  intros He Hl. destruct (filter is_elem l) as [|a r] eqn:Ef.
+  - exfalso. apply existsb_exists in He. destruct He as [x [Hin Hx]].
+    assert (In x (filter is_elem l)) by (apply filter_In; auto). rewrite Ef in H. destruct H.
+  - cbn [length] in *. lia.
+Qed.
+
+Theorem xe_effect_document : forall (d : xdoc) (frag : list fnode) (d' : xdoc),
+  did d = 0 -> xe_model d [(0, KDoc)] frag = Done d' -> replace_spec [0] frag d = Some d'.
+Proof.
+  intros [did0 ch0] frag d' Hd Hm. cbn [did] in Hd. subst did0. unfold xe_model in Hm. cbn [xe_loop] in Hm.
+  destruct (conv_list frag) as [[new|]|] eqn:Ec; try discriminate.
+  destruct (forallb _ new && Nat.leb (length (filter is_elem new)) 1) eqn:Eok; [|discriminate].
+  apply andb_true_iff in Eok. destruct Eok as [Hkinds Hle]. apply Nat.leb_le in Hle.
+  unfold finish in Hm. cbn [did dchildren] in Hm.
+  destruct (existsb is_elem new) eqn:Ee; [|discriminate]. injection Hm as <-.
+  unfold replace_spec. cbn [did dchildren memb existsb Nat.eqb orb].
+  unfold conv_children. rewrite (conv_list_map _ _ Ec), (merge_text_no_text _ Hkinds).
+  unfold doc_children_ok. rewrite Hkinds, (filter_elem_length _ Ee Hle). reflexivity.
+Qed.
+
+(** non-vacuity of the hypotheses of [xe_effect_mixed]: a selected element, a selected attribute
+    of that element and a selected element nested in it *)
+Example xe_mixed_hypotheses :
+  let d := {| did := 0; dchildren := [E 1 [114%N] [] [E 2 [97%N] [(3, [112%N], [49%N])] [T [120%N]; E 4 [97%N] [] []]; E 5 [99%N] [] []]] |} in
+  let sel := [(2, KElem); (3, KAttr); (4, KElem)] in
+  no_doc_other sel /\ ~ In 0 (map fst sel) /\ did d = 0 /\
+  Forall (kinds_ok (rev (elems_of sel)) (rev (attrs_of sel))) (dchildren d) /\
+  existsb is_elem (dchildren d) = true /\
+  xe_model d sel [FT [110%N]] = Done {| did := 0; dchildren := [E 1 [114%N] [] [E 2 [97%N] [(3, [112%N], [110%N])] [T [110%N]]; E 5 [99%N] [] []]] |}.
+Proof.
+  cbv zeta. repeat split.
+  - repeat constructor.
+  - cbn. intros [H|[H|[H|[]]]]; discriminate.
+  - repeat (constructor; cbn; repeat split; try reflexivity).
+Qed.
